@@ -11,7 +11,8 @@
  * library's output and the CRCs recorded in the archive headers.
  *
  * The includer provides    static unsigned PMA_BITS(unsigned pos, unsigned n)
- * = the n (0..16) bits at absolute bit position pos of the compressed stream, most significant bit first. */
+ * = the n (0..18) bits at absolute bit position pos of the compressed stream, most significant bit first; the
+ * prefix-code matchers look ahead a fixed 3, 5 or 18 bits and then advance by the length of the codeword found. */
 #ifndef PMA_REF_H
 #define PMA_REF_H
 
@@ -173,10 +174,11 @@ static const PmaRefRow pm1_ref_copy_len[7] = {
 };
 static unsigned pma_ref_rows(const PmaRefRow *rows, unsigned nrows, unsigned *cur)
 {
-	unsigned i, v;
+	/* the longest codeword (prefix + extra bits) has 18 bits: look at the next 18 bits once */
+	unsigned i, v, win = PMA_BITS(*cur, 18);
 	for (i = 0; i < nrows; ++i) {
-		if (PMA_BITS(*cur, rows[i].plen) != rows[i].prefix) continue;
-		v = PMA_BITS(*cur + rows[i].plen, rows[i].xbits);
+		if ((win >> (18 - rows[i].plen)) != rows[i].prefix) continue;
+		v = (win >> (18 - rows[i].plen - rows[i].xbits)) & ((1u << rows[i].xbits) - 1u);
 		if (v >= rows[i].count) continue;
 		*cur += rows[i].plen + rows[i].xbits;
 		return rows[i].base + v;
@@ -198,10 +200,10 @@ static const Pm1RefTypeRow pm1_ref_copy_class[17] = {
 static unsigned pm1_ref_epoch_start(unsigned pos) { return pos < 64 ? 0 : pos < 576 ? 64 : pos < 2624 ? 576 : 2624; }
 static unsigned pm1_ref_copy_type(unsigned pos, unsigned *cur)
 {
-	unsigned i, e = pm1_ref_epoch_start(pos);
+	unsigned i, e = pm1_ref_epoch_start(pos), win = PMA_BITS(*cur, 3);
 	for (i = 0; i < 17; ++i) {
 		if (pm1_ref_copy_class[i].from_pos != e) continue;
-		if (PMA_BITS(*cur, pm1_ref_copy_class[i].plen) != pm1_ref_copy_class[i].prefix) continue;
+		if ((win >> (3 - pm1_ref_copy_class[i].plen)) != pm1_ref_copy_class[i].prefix) continue;
 		*cur += pm1_ref_copy_class[i].plen;
 		return pm1_ref_copy_class[i].cls;
 	}
@@ -379,10 +381,10 @@ static const unsigned char pm1_ref_leaf_cls[32 * 6] = {
 /* rank class (0..5 = a..f) selected by the next bits under start header `header` */
 static unsigned pm1_ref_class(unsigned header, unsigned *cur)
 {
-	unsigned i;
+	unsigned i, win = PMA_BITS(*cur, 5);               /* the longest codeword has 5 bits */
 	for (i = 0; i < 6; ++i) {
 		if (i >= pm1_ref_tree_nleaves[header]) break;
-		if (PMA_BITS(*cur, pm1_ref_leaf_len[6 * header + i]) != pm1_ref_leaf_code[6 * header + i]) continue;
+		if ((win >> (5 - pm1_ref_leaf_len[6 * header + i])) != pm1_ref_leaf_code[6 * header + i]) continue;
 		*cur += pm1_ref_leaf_len[6 * header + i];
 		return pm1_ref_leaf_cls[6 * header + i];
 	}
